@@ -220,8 +220,11 @@ def is_state(prog, rep, tag):
             if some_t is None:
                 d["every-item-compared"] = False
             else:
-                around = b.reachable_from(some_t, avoid={cmp_bb})
-                d["every-item-compared"] = it[0].bb not in around and al[0].bb not in around and all(x[0] not in around for x in maybe_true)
+                # paths that go round the comparison may only end in Ok(false): with an accumulated flag the comparison is
+                # legitimately short-circuited once the flag is false (`all = all && state == desired`)
+                around = q.BoolFlow(b, some_t, 0, {}, avoid={cmp_bb})
+                bad_ok = [x for x in maybe_true if x[0] in around.in_state and around.value_at(x[0], x[1], x[2]["rv"]["a"][0]) != 0]
+                d["every-item-compared"] = not bad_ok
         else:
             d["every-response-compared"] = False
     ok = bool(d) and all(d.values())
